@@ -440,7 +440,13 @@ func RunStoreScenario(sc *Scenario) (vd *Verdict) {
 			}
 			r.takeMark("now", time.Now().UnixNano(), l, q)
 		case "pageStart":
-			if v := r.startPaged(relQuery{Start: op.S, Pred: op.DS, Inverse: op.Latest, Scope: scopeOf(op)}, op.Limit); v != nil {
+			var more []string
+			if l, ok := op.M["more"].([]any); ok && !op.Latest {
+				for _, x := range l {
+					more = append(more, fmt.Sprint(x))
+				}
+			}
+			if v := r.startPaged(relQuery{Start: op.S, Pred: op.DS, Inverse: op.Latest, Scope: scopeOf(op), More: more}, op.Limit); v != nil {
 				fail(v, i)
 				return
 			}
